@@ -21,7 +21,7 @@ import (
 const addrA, addrB = "127.0.0.1:1001", "127.0.0.1:1002"
 
 type params struct {
-	kind   string // bytes-burst (messages with a raw []byte payload, kept by the receiver and compared after the whole burst) | burst | two-senders | first-contact | both-ways | ask | idle-gap | idle-gap-noretry (reconnect limit 0)
+	kind   string // concurrent-asks (two outside goroutines Ask through the system at the same moment; with the happens-before race detector) | bytes-burst (messages with a raw []byte payload, kept by the receiver and compared after the whole burst) | burst | two-senders | first-contact | both-ways | ask | idle-gap | idle-gap-noretry (reconnect limit 0)
 	n      int
 	size   int    // payload size
 	chunks string // all | small
@@ -63,10 +63,11 @@ func scenario(p params, bounds []int) *vexp.Scenario {
 		cfg.FinePkgs = []string{"vivid/internal/remoting."}
 	}
 	return &vexp.Scenario{
-		Name:   p.name(),
-		Family: p.kind,
-		Cfg:    cfg,
-		Bounds: bounds,
+		Name:       p.name(),
+		Family:     p.kind,
+		Cfg:        cfg,
+		CheckRaces: p.kind == "concurrent-asks",
+		Bounds:     bounds,
 		Setup:  func(x *vexp.X) { vsys.CoarseSetupSends() },
 		Body: func(x *vexp.X) {
 			nw := vnet.Reset()
@@ -171,6 +172,22 @@ func scenario(p params, bounds []int) *vexp.Scenario {
 			mkSender(wb, "t1", echoA)
 			vrt.QuiesceNoTimers()
 			switch p.kind {
+			case "concurrent-asks":
+				for g := 1; g <= 2; g++ {
+					g := g
+					vrt.Go(fmt.Sprintf("outside-asker-%d", g), func() {
+						for i := 1; i <= p.n; i++ {
+							id := fmt.Sprintf("ask-o%d.%d", g, i)
+							v, err := wa.Sys.Ask(echoB, msg(id, p.size)).Result()
+							if err != nil {
+								replies = append(replies, id+"=ERR:"+err.Error())
+								continue
+							}
+							rid, _ := idOf(v.(*vcodec.CustomMsg))
+							replies = append(replies, id+"="+rid)
+						}
+					})
+				}
 			case "burst", "bytes-burst":
 				wa.Sys.Tell(wa.Ref("/s1"), vsys.Msg{ID: "go"})
 			case "two-senders", "first-contact":
@@ -200,7 +217,7 @@ func scenario(p params, bounds []int) *vexp.Scenario {
 			for _, ids := range sent {
 				total += len(ids)
 			}
-			if total == 0 {
+			if total == 0 && p.kind != "concurrent-asks" {
 				x.Fail("harness", "nothing was sent")
 			}
 			check := func(where string, list []got, senders map[string]string) {
@@ -247,6 +264,17 @@ func scenario(p params, bounds []int) *vexp.Scenario {
 			}
 			check("B:/echo", atB, map[string]string{"s1": addrA + "/s1", "s2": addrA + "/s2"})
 			check("A:/echo", atA, map[string]string{"t1": addrB + "/t1"})
+			if p.kind == "concurrent-asks" {
+				if len(replies) != 2*p.n {
+					x.Fail("reply-reaches-asker", "%d Asks were sent, %d completed: %v", 2*p.n, len(replies), replies)
+				}
+				for _, r := range replies {
+					parts := strings.SplitN(r, "=", 2)
+					if parts[1] != "re:"+parts[0] {
+						x.Fail("reply-reaches-asker", "Ask %s completed with %s", parts[0], parts[1])
+					}
+				}
+			}
 			if p.kind == "ask" {
 				if len(replies) != p.n {
 					x.Fail("reply-reaches-asker", "%d Asks were sent, %d completed: %v", p.n, len(replies), replies)
@@ -299,6 +327,8 @@ func build(tier string) []*vexp.Scenario {
 			out = append(out, scenario(params{"bytes-burst", 3, size, "small"}, b1))
 		}
 	}
+	out = append(out, scenario(params{"concurrent-asks", 1, 10, "all"}, b1))
+	out = append(out, scenario(params{"concurrent-asks", 2, 10, "all"}, b0))
 	b2 := []int{0, 1, 2}
 	out = append(out, vexp.Split(12, func() *vexp.Scenario { return scenario(params{"first-contact", 2, 10, "all"}, b2) })...)
 	if tier == "thorough" {
